@@ -214,6 +214,11 @@ def run_one(ctx, label, img, meta, ops, mnt):
             ir.fs.close()
 
 
+def fatspec_volume(img, meta):
+    from .. import fatspec
+    return fatspec.Volume(img, force_ft=history.force_ft(meta))
+
+
 def names_ok_pool(rng, enc):
     pool = [n for n in gen.name_pool(rng) if not _hist.quarantined_name(n, enc)]
     seen, out = {}, []
@@ -226,9 +231,36 @@ def names_ok_pool(rng, enc):
     return out
 
 
+def scripted(i, bpc):
+    """minimised past disagreements and targeted histories, run before the random programs"""
+    k = i % 3
+    if k == 0:     # case variants that both carry a long name are distinct entries; removing one must not touch the other
+        return [["makedir", "/cs"], ["writebytes", "/cs/nOtes.txt", "aa" * 40], ["writebytes", "/cs/Notes.txt", "bb" * 50], ["makedir", "/cs/sUb"], ["makedir", "/cs/Sub"],
+                ["remove", "/cs/Notes.txt"], ["readbytes", "/cs/nOtes.txt"], ["listdir", "/cs"], ["removedir", "/cs/Sub"], ["isdir", "/cs/sUb"], ["listdir", "/cs"],
+                ["removetree", "/cs"], ["exists", "/cs"]]
+    if k == 1:     # a file regrown into the hole below its head cluster, then removed: the freed clusters must be allocatable again
+        return [["writebytes", "/BIG.BIN", "11" * (30 * bpc)], ["writebytes", "/SMALL.BIN", "22" * bpc], ["remove", "/BIG.BIN"],
+                ["appendbytes", "/SMALL.BIN", "33" * (20 * bpc)], ["getsize", "/SMALL.BIN"], ["remove", "/SMALL.BIN"], ["listdir", "/"]]
+    return [["makedirs", "/g/h/i"], ["writebytes", "/g/h/i/one.txt", "01" * (3 * bpc + 5)], ["copy", "/g/h/i/one.txt", "/g/two.txt"], ["move", "/g/two.txt", "/g/h/three.txt"],
+            ["removetree", "/g/h/i"], ["listdir", "/g/h"], ["readbytes", "/g/h/three.txt"]]
+
+
 def run(ctx):
     vols = gen.volumes(ctx.tier)
     built = {}
+    for i in range(len(vols) * 3 if ctx.tier == "quick" else len(vols) * 3):
+        label, thunk = vols[i % len(vols)]
+        if label in ("build32-high",) and ctx.tier == "quick":
+            continue
+        if label not in built:
+            built[label] = thunk()
+        img, meta = built[label]
+        v = fatspec_volume(img, meta)
+        if v.count < 60:
+            continue
+        ctx.evaluations += 1
+        ctx.dist["scripted"] += 1
+        run_one(ctx, label, img, meta, scripted(i // len(vols), v.bpc), dict(encoding="ibm437", lazy_load=bool(i % 2)))
     for i in range(ctx.scale(40, 800)):
         if ctx.time_left() < 20:
             break
